@@ -286,7 +286,9 @@ class Ombott:
             finally:
                 self.emit('after_request')
         except HTTPResponse as resp:
-            return resp
+            # the raised object may be a long-lived one (raised again by later requests):
+            # do not let it keep this request's frames alive
+            return resp.with_traceback(None)
         except (KeyboardInterrupt, SystemExit, MemoryError):
             raise
         except Exception as err500:
